@@ -243,6 +243,14 @@ def run_c12(case, fail):
     miss = rs.rand(n) < 0.4
     if miss.all():
         miss[0] = False
+    if case["t"] % 3 == 2:
+        # a numeric sentinel instead of NaN (the models are configured with it)
+        ml = -1.0 if case.get("reg") else -1.0
+        mk0 = mk
+        if case.get("reg"):
+            mk = lambda: z["mk"](missing_label=ml)
+        else:
+            mk = lambda: z["mk"](classes=[0, 1, 2], random_state=0, missing_label=ml)
     y2 = y.copy()
     y2[miss] = ml
     w = (rs.rand(n) + 0.1) if use_w else None
